@@ -101,6 +101,31 @@ MULTIPART = ("SyntaxError", "IndentationError", "TabError", "ExceptionGroup", "B
 EXC = dict((c.__name__, c) for c in vars(builtins).values()
            if isinstance(c, type) and issubclass(c, Exception) and c.__name__ not in MULTIPART)
 EXC.update((c.__name__, c) for c in [MyError, MyTypeError, MyAttrError])
+
+
+class MyBaseError(BaseException):
+    """A user class deriving from BaseException directly (not an Exception)."""
+
+
+class MyExit(SystemExit):
+    """A subclass of SystemExit."""
+
+
+# The exception KIND that `EXC` leaves out: BaseExceptions that are NOT instances of Exception — what `sys.exit()` in a "quit"
+# handler raises, KeyboardInterrupt, GeneratorExit, asyncio's CancelledError, user classes deriving from BaseException
+# directly.  The property texts of C03/C04 say "all method outcomes (return, raise, …)": these are outcomes too (C05 restricts
+# itself to "ordinary exception classes", and C02 is not asked about them).  Only the input class of
+# harness/servercases_base.py (em["baseexc"]) uses them; `random_raise` draws from `EXC` alone.
+import asyncio  # noqa: E402
+BASE_EXC = dict((c.__name__, c) for c in [SystemExit, KeyboardInterrupt, GeneratorExit, BaseException, asyncio.CancelledError,
+                                          MyBaseError, MyExit])
+assert not any(issubclass(c, Exception) for c in BASE_EXC.values())
+
+
+def exc_class(name):
+    return EXC[name] if name in EXC else BASE_EXC[name]
+
+
 # classes whose constructor wants a fixed argument list
 SPECIAL_ARGS = {
     "UnicodeDecodeError": ["utf-8", "$bytes", 0, 1, "invalid start byte"],
@@ -126,7 +151,7 @@ def materialise(v):
 
 def make_exc(beh):
     """The exception instance of a `raise` behaviour."""
-    cls = EXC[beh[1]]
+    cls = exc_class(beh[1])
     opts = beh[3] if len(beh) > 3 else {}
     args = opts.get("args")
     if args is None and beh[1] in SPECIAL_ARGS and beh[2] is None:
@@ -230,7 +255,10 @@ def from_model(tree):
 
 
 def _enc_exc(ex, depth):
-    # the model is given the class of the instance (OSError(2, ..) is a FileNotFoundError) and `str(exception)`
+    # the model is given the class of the instance (OSError(2, ..) is a FileNotFoundError) and `str(exception)` — and the KIND:
+    # an exception that is not an instance of Exception is a `CallOutcome.raisedBase`
+    if not isinstance(ex, Exception):
+        return ["raisebase", type(ex).__name__, str(ex), depth]
     return ["raise", type(ex).__name__, str(ex), isinstance(ex, TypeError), isinstance(ex, AttributeError), depth]
 
 
@@ -397,7 +425,7 @@ def observe(f, params):
         if isinstance(params, list):
             return ("ret", f(*params))
         return ("ret", f(**params))
-    except Exception as ex:  # noqa: BLE001
+    except (Exception,) + tuple(BASE_EXC.values()) as ex:  # noqa: BLE001
         depth = 0
         tb = ex.__traceback__.tb_next
         while tb is not None:
@@ -562,7 +590,11 @@ class Real(object):
             self.disp.set_notification_pool(PoolProxy(self.real_pool, self.log, self.custom, pool == "full"))
 
     def dispatch(self, body):
-        k, v = impl.outcome(self.disp._marshaled_dispatch, body, self.custom)
+        try:
+            k, v = impl.outcome(self.disp._marshaled_dispatch, body, self.custom)
+        except tuple(BASE_EXC.values()) as ex:
+            # an exception of the kind `except Exception` does not catch came out of the dispatcher: an outcome like any other
+            k, v = "err", ex
         if self.real_pool is not None:
             self.real_pool.join()
         return k, v
@@ -1284,7 +1316,7 @@ def run_real(case):
         real2 = Real(desc, case["ver"], case["uj"], case["pool"])
         try:
             res.post = real2.post(case["body"])
-        except Exception as ex:  # noqa: BLE001
+        except (Exception,) + tuple(BASE_EXC.values()) as ex:  # noqa: BLE001
             res.post = ("raised", "%s: %s" % (type(ex).__name__, str(ex)[:200]), None)
     # the model's integers are unbounded: a result of more than sys.get_int_max_str_digits() digits (json.dumps raises
     # ValueError) is not described by it
@@ -2163,6 +2195,11 @@ def std_cases(ctx, em):
     #    (ws/…, em["ws"]) or followed / preceded by text that is not white space (garbage/…, em["garbage"])
     import servercases_ws as sw
     sw.extend_cases(ctx, em, rng, cases)
+    # o) the input class of harness/servercases_base.py: methods / dispatch functions raising an exception that is NOT an instance
+    #    of Exception (SystemExit, KeyboardInterrupt, GeneratorExit, …: baseexc/…, em["baseexc"]; absent: not generated)
+    if em.get("baseexc"):
+        import servercases_base as sb
+        sb.extend_cases(ctx, em, rng, cases)
     return cases
 
 
